@@ -53,6 +53,11 @@ func c02Events(n int) []string {
 		ev = append(ev, fmt.Sprintf("eject:b%d", i))
 	}
 	ev = append(ev, "clock+4s(<window)", "clock+11s(>window)")
+	if n <= 2 {
+		// edges of the window: just inside it, then a step smaller than any whole second
+		// (anything cached or swept "at most once per second" shows here)
+		ev = append(ev, "clock+9.7s(just-inside)", "clock+0.6s")
+	}
 	ev = append(ev, "hold:10.0.0.1", "hold:10.0.0.2")
 	for i := 0; i < n; i++ {
 		ev = append(ev, fmt.Sprintf("release:b%d", i))
@@ -169,6 +174,10 @@ func (in *c02Inst) Step(ev int) *vh.HViol {
 		in.out = "ejected"
 	case e == "clock+4s(<window)":
 		in.s.AdvanceQuiet(4 * time.Second)
+	case e == "clock+9.7s(just-inside)":
+		in.s.AdvanceQuiet(9700 * time.Millisecond)
+	case e == "clock+0.6s":
+		in.s.AdvanceQuiet(600 * time.Millisecond)
 	case e == "clock+11s(>window)":
 		in.s.AdvanceQuiet(11 * time.Second)
 	case e == "add":
@@ -269,6 +278,7 @@ func (in *c02Inst) Fingerprint() string {
 		}
 	}
 	fmt.Fprintf(&b, "|added=%d", in.added)
+	b.WriteString(in.k.novel())
 	return b.String()
 }
 
